@@ -171,6 +171,14 @@ def cases(M):
             continue
         yield {"za": za, "zb": zb, "ua": ua, "ub": ub, "ha": r.choice(HOWS[:5]), "hb": r.choice(HOWS), "ti": ia, "pa": str(da),
                "pb": "r"}
+    # an endpoint built directly by the class constructor on a wall time its zone skips (either fold): it denotes
+    # wall - utcoffset(fold), and every form of the difference has to honour that
+    for zn in (zones if thorough else zones[:8]):
+        z = tzdb.Z.get(zn)
+        gaps = [(t, ob, oa) for (t, ob, oa, _) in z.trans if oa > ob and gen.ok_instant(t * US)]
+        for t, ob, oa in gaps[-(6 if thorough else 2):]:
+            yield {"k": "rawgap", "z": zn, "w": (t + ob) * US + r.randrange((oa - ob) * US), "f": r.randrange(2),
+                   "ua": t * US + r.choice((-1, 1)) * r.randrange(1, 10**5) * US + r.randrange(US)}
     # the two ends of the representable range (years 1 and 9999), where the UTC instant itself is not representable
     for j in range(6000 if thorough else 600):
         zn = r.choice(names)
@@ -214,6 +222,27 @@ def run(M, c):
         return _run_plain(M, c)
     if c.get("k") == "edge":
         return _run_edge(M, c)
+    if c.get("k") == "rawgap":
+        from pvmon.common import us_to_fields
+
+        g = P.DateTime(*us_to_fields(c["w"]), tzinfo=P.timezone(c["z"]), fold=c["f"])
+        a = gen.mk(c["z"], c["ua"])
+        e = inst(g) - inst(a)                      # the instants the two objects themselves denote
+        M.cls("rawgap", c["z"], c["f"], e > 0)
+        M.sample(c)
+        forms = {"g - a": lambda: g - a, "a - g": lambda: a - g, "a.diff(g, False)": lambda: a.diff(g, False), "g.diff(a, False)": lambda: g.diff(a, False),
+                 "interval(a, g)": lambda: P.interval(a, g), "interval(g, a)": lambda: P.interval(g, a)}
+        for nm, fn in forms.items():
+            sign = -1 if nm in ("a - g", "g.diff(a, False)", "interval(g, a)") else 1
+            try:
+                v = fn()
+            except Exception as ex:  # noqa: BLE001
+                M.check("length", False, f"C05/raw-gap-endpoint:raised-{type(ex).__name__}", "difference with an endpoint on a skipped wall time raised", form=nm,
+                        a=_d(a), g=_d(g))
+                continue
+            M.check("length", _len_ok(v, sign * e), "C05/raw-gap-endpoint:length", "difference with an endpoint built on a skipped wall time is not the elapsed time "
+                    "between the instants the objects denote", form=nm, a=_d(a), g=_d(g), got=td_us(v), expected=sign * e)
+        return
     a = _mk(M, c["za"], c["ua"], c["ha"])
     b = _mk(M, c["zb"], c["ub"], c["hb"])
     if inst(a) != c["ua"] or inst(b) != c["ub"]:
